@@ -12,7 +12,7 @@ PID = "C19"
 RULE = (
     "machine 'stream': a Stream built from generated values, then up to 12 (thorough 30) setter calls in any order (t_supply, t_target, "
     "heat_flow by property and by set_heat_flow, dt_cont, htc > 0), including assignments that flip supply and target or pass through "
-    "equality; model = the five numbers with the documented latent expansion; invariants after every step. machine 'collection': "
+    "equality; model = the five numbers with the documented latent expansion; invariants after every step (CP x span = duty, bounds, kind, shift direction, htr = 1/htc and the resistance-capacity product rCP = CP / htc kept by the same helper). machine 'collection': "
     "add / add_many (with and without keys) / remove (present, absent) / replace / set_sort_key (attribute, list, callable; both directions) / "
     "+ / get_index / iterate / len / contains over streams with a four-letter name alphabet (clashes); model = list of member identities + "
     "Python sorted(). non-trivial = history of >= 3 operations with one after a cached iteration (collection) or with a flip / equality "
@@ -102,6 +102,9 @@ class StreamInterp:
             f.append(Fail("C19.stream_shift_direction", f"{ctx}: type={kind!r}, bounds ({s.t_min!r}, {s.t_max!r}), contribution {m['dt']!r} but shifted bounds are ({s.t_min_star!r}, {s.t_max_star!r})"))
         if not close(s.htr, 1.0 / m["htc"]):
             f.append(Fail("C19.stream_resistance", f"{ctx}: htr={s.htr!r} but 1/htc={1.0 / m['htc']!r} (htc attr {s.htc!r})"))
+        elif s.rCP is not None and not close(s.rCP, s.CP / m["htc"], abs(s.CP / m["htc"])):
+            # the product of that resistance and the heat-capacity flow rate, kept by the same helper
+            f.append(Fail("C19.stream_resistance_capacity_product", f"{ctx}: rCP={s.rCP!r} but CP x (1/htc) = {s.CP / m['htc']!r}"))
         return f
 
 
